@@ -4,7 +4,7 @@ from verifkit import derivegen as dg
 from verifkit.props import C08 as base
 
 ID = "C09"
-THM_MODULES = ["Minicbor.Thm.C09"]
+THM_MODULES = ["Minicbor.Thm.Attrs", "Minicbor.Thm.C09"]
 P = "Minicbor.C09."
 REQUIRED = [P + n for n in """dec_roundtrip fields_roundtrip vars_roundtrip derive_roundtrip derive_roundtrip_exact_length
 encVars_eq blob_rt derive_wrong_tag derive_wrong_tag_enum derive_missing_tag resolve_missing derive_missing_mandatory
@@ -21,7 +21,10 @@ fieldsDec_arrN fieldsDec_arrI fieldsDec_mapN fieldsDec_mapI arrLoopN_X arrLoopI_
 startNB_encW startOk_encW skip_emptyW readerVals_self
 body_pref rfVars_pref snd_body snd_vars spec_valid""".split()]
 PACKAGES = ["dgen"]
-prepare = base.prepare
+def prepare(seed, tier):
+    base.prepare(seed, tier)
+
+
 RULE = ("ddec <type> <hex>: for every type definition and value of the C08 corpus (same grammar, same presence combinations and boundary values): "
         "(o) the bytes the implementation's own derived Encode wrote for the value (stream derive-own-encoding -> derive-roundtrip-own-bytes), "
         "(i) the documented encoding (Python reference encoder = implementation's encoding by C08), (ii) re-framings of it: every struct / variant / Vec "
@@ -165,6 +168,7 @@ def streams(rng, tier):
             mk("derive-prefixes", pf, "strict prefixes of an encoding never decode"),
             mk("derive-reframed-enum-wrapper", rw, "re-framings in which the two-element wrapper [variant index, body] of every (non index_only) enum is an "
                "indefinite-length array: the property demands the value, the code answers with a message error (known finding K8)")]
+    yield base.attr_stream(tier, "decode")
 
 
 def replay_streams(rp):
